@@ -256,7 +256,7 @@ func registerHarnessIntrinsics(m map[string]intrinsic) {
 	h("vQuiesce", func(w *World, g *G, a []Value, fin func(Value)) {
 		// blocks until no other goroutine can make progress (the environment waits for the
 		// system under test to finish what it is doing)
-		op := &syncOp{desc: "vQuiesce", quiesce: true, exec: func() { fin(nil) }}
+		op := &syncOp{desc: "vQuiesce", quiesce: true, free: true, exec: func() { fin(nil) }}
 		op.ready = func() bool {
 			for _, x := range w.gs {
 				if x == g || x.done || x.pend == nil || x.pend.quiesce {
@@ -316,6 +316,10 @@ func registerHarnessIntrinsics(m map[string]intrinsic) {
 	})
 	h("vSetMapOrder", func(w *World, g *G, a []Value, fin func(Value)) {
 		w.mapOrder = a[0].(*Term).IsTrue()
+		fin(nil)
+	})
+	h("vSetTimersAnywhere", func(w *World, g *G, a []Value, fin func(Value)) {
+		w.timersAnywhere = a[0].(*Term).IsTrue()
 		fin(nil)
 	})
 	h("vSetTimerBudget", func(w *World, g *G, a []Value, fin func(Value)) {
